@@ -53,14 +53,14 @@ theorem for_me_refines (me : String) (rs : List (List (Option String))) :
       intro env' b hb
       cases b <;> simp [evalStmt, evalExpr, hb, truthy, evalBlock]
     have h5 : ∀ (env' : Env) (b : Bool), lookup env' "matched" = some (.bool b) →
-        evalStmt Sp.pyStrip noExt 59 env' (.ret (some (.name "matched"))) = .ret (.bool b) := by
+        evalStmt Sp.pyStrip noExt 59 env' (.ret (some (.name "matched"))) = .ret (.bool b) env' := by
       intro env' b hb
       simp [evalStmt, evalExpr, hb]
     have hloop := outer_loop 49 me rs env0 false hme0 hma0
     have hrun : run Sp.pyStrip noExt for_me [encC rs, .str me] =
         (match evalBlock Sp.pyStrip noExt 64 envI for_me.body with
          | .normal _ => .value .none
-         | .ret v => .value v
+         | .ret v _ => .value v
          | .raise c _ => .raised c
          | .brk _ => .stuck "break outside a loop"
          | .cont _ => .stuck "continue outside a loop"
@@ -72,7 +72,8 @@ theorem for_me_refines (me : String) (rs : List (List (Option String))) :
     rw [evalBlock_cons, h3]
     cases hall : rs.all (rOk me) with
     | false =>
-      rw [hloop.1 hall]; simp [hne]
+      obtain ⟨e, hl⟩ := hloop.1 hall
+      rw [hl]; simp [hne]
     | true =>
       obtain ⟨env', hl, _, hma'⟩ := hloop.2 hall
       rw [hl]; simp only []
